@@ -190,6 +190,11 @@ def run(ctx):
     # design level: on noise-free evidence of every admissible multiset of a small catalogue the planted multiset
     # is admissible, scores 0 and is optimal; zero-score multisets explain the same variants; gap monotone
     ctx.mc("mc/MC_MajorModel", label="MC_MajorModel(planted x perturbations)", workers=8)
+    # encoding layer: every constraint the code documents is a named rule of MajorEncoding; TLC proves that the
+    # encoding refines the semantic layer and, per rule, finds an input on which dropping it changes the allowed
+    # results; those witnesses are replayed into the real stage and validated by the trace spec
+    from . import enc
+    enc.run_major(ctx)
     tasks = []
     for j in range(12 if quick else 60):
         tasks.append(("toy", rng.choice(["hg19", "hg38"]), rng.randrange(1 << 30), 100 if quick else 200, "noisy"))
@@ -256,6 +261,9 @@ def replay(path):
     aldyenv.setup()
     with open(path) as f:
         m = json.load(f)["case"]
+    if m.get("enc"):
+        from . import enc
+        return enc.replay(path, "C02")
     gname = m["gene"]
     g = load_gene(*gname.split("/"))
     table = {int(p): v for p, v in m["table"].items()}
